@@ -2,11 +2,11 @@ CONSTANTS
 Mode = "jumps"
 MaxItems = 4
 Vals = {0, 1, 127, 128, 255, 256, 16383, 16384, 2097151, 2097152, 268435455, 268435456, 2147483647}
-Pads = {2097151, 2097152}
+Pads = {2097151, 2097152, 16777211}
 MaxPads = 1
 MaxLabels = 1
 PoolMax = 16384
 INIT Init
 NEXT Next
-INVARIANTS RoundTrip OffsetsIncrease LabelTable JumpTables LinesOK EmitRow
+INVARIANTS TheoremAndRow
 CHECK_DEADLOCK FALSE
